@@ -2769,9 +2769,10 @@ def run(prop: str, tier: str, seed: int, intensify: bool = False) -> Result:
         res.failures.append(Failure("oracle", prop, f"{prop}|construction|objects-under-test-cannot-be-built",
                                     f"{aborted} of {aborted + built} initial states could not be constructed ({kinds_}); "
                                     f"first note: {(res.notes or ['-'])[0][:300]}", {"aborted": aborted, "built": built}))
-    # minimise oracle failures (delta debugging over the operation list)
+    # minimise oracle failures (delta debugging over the operation list); at most ~3 minutes in total
+    t_shr = time.time()
     for f in res.failures:
-        if f.kind == "oracle" and "ops" in f.replay:
+        if f.kind == "oracle" and "ops" in f.replay and time.time() - t_shr < 180:
             try:
                 f.replay = shrink(prop, f)
             except Exception:
@@ -2794,10 +2795,25 @@ def shrink(prop: str, f: Failure) -> dict:
     if not reproduces(prop, spec, ops, f.signature):
         return f.replay
     t0 = time.time()
+    # long histories first in halves / quarters … (one-by-one removal of 2 000 operations, each
+    # candidate a full session, would take an hour)
+    chunk = len(ops) // 2
+    while chunk >= 8 and time.time() - t0 < 20:
+        i, progressed = 0, False
+        while i + chunk < len(ops) and time.time() - t0 < 20:
+            cand = ops[:i] + ops[i + chunk:]
+            if reproduces(prop, spec, cand, f.signature):
+                ops, progressed = cand, True
+            else:
+                i += chunk
+        if not progressed:
+            chunk //= 2
     changed = True
     while changed and time.time() - t0 < 20:
         changed = False
         for i in range(len(ops) - 1):  # keep the last (failing) op
+            if time.time() - t0 >= 20:
+                break
             cand = ops[:i] + ops[i + 1:]
             if reproduces(prop, spec, cand, f.signature):
                 ops = cand
@@ -2808,6 +2824,8 @@ def shrink(prop: str, f: Failure) -> dict:
     while changed and time.time() - t0 < 40:
         changed = False
         for x in list(spec["nodes"]):
+            if time.time() - t0 >= 40:
+                break
             s2 = copy.deepcopy(spec)
             s2["nodes"] = [y for y in s2["nodes"] if y["id"] != x["id"]]
             s2["edges"] = [e for e in s2["edges"] if x["id"] not in (e["u"], e["v"])]
